@@ -76,6 +76,7 @@ VARIABLES
     tmpc,     \* [Frags -> SUBSET Bits]   bitmap being written to it
     opn,      \* [Frags -> 0..MaxOpN+1]   bits changed since the last snapshot (saturating)
     sq,       \* [Frags -> {"idle","queued","created","written"}]  snapshot request / worker pc
+              \*   (+ "maybe" in contentless mode: a request may have been made)
     kdisk,    \* complete entries in the translate file
     ktorn,    \* the translate file ends with a partial entry
     kpart,    \* chunks of the entry in progress already written
@@ -164,8 +165,12 @@ Entry(f) ==
 Bump(f, e) ==
     LET n == Min(opn[f] + Cardinality(e.add \cup e.rem), MaxOpN + 1)
     IN /\ opn' = [opn EXCEPT ![f] = n]
-       /\ \E q \in (IF Contentless THEN (IF NoOpnSnapshot THEN {FALSE} ELSE BOOLEAN) ELSE {n > MaxOpN}) :
-            sq' = IF q /\ sq[f] = "idle" THEN [sq EXCEPT ![f] = "queued"] ELSE sq
+       \* contentless: whether the threshold was crossed is not known; "maybe" lets a
+       \* snapshot of f start later without forcing one
+       /\ sq' = IF sq[f] # "idle" THEN sq
+                ELSE IF Contentless
+                     THEN (IF NoOpnSnapshot THEN sq ELSE [sq EXCEPT ![f] = "maybe"])
+                     ELSE (IF n > MaxOpN THEN [sq EXCEPT ![f] = "queued"] ELSE sq)
 
 \* one write(2) appending one complete op log entry
 AppendOp(f) ==
@@ -175,7 +180,7 @@ AppendOp(f) ==
     /\ Contentless \/ mem[f] # goal[f]
     /\ LET e == Entry(f)
        IN /\ mem' = [mem EXCEPT ![f] = (mem[f] \cup e.add) \ e.rem]
-          /\ log' = [log EXCEPT ![f] = Append(log[f], e)]
+          /\ log' = IF Contentless THEN log ELSE [log EXCEPT ![f] = Append(log[f], e)]
           /\ Bump(f, e)
     /\ done' = [done EXCEPT ![f] = done[f] + 1]
     /\ UNCHANGED <<snap, torn, tmp, tmpc, kvars, mtmp, infl, hdr, rowed, gvars, nw, pc, rec, reck>>
@@ -193,7 +198,7 @@ AppendOpPayload(f) ==
     /\ pc = "run" /\ InData /\ f \in infl.frags /\ hdr[f]
     /\ LET e == Entry(f)
        IN /\ mem' = [mem EXCEPT ![f] = (mem[f] \cup e.add) \ e.rem]
-          /\ log' = [log EXCEPT ![f] = Append(log[f], e)]
+          /\ log' = IF Contentless THEN log ELSE [log EXCEPT ![f] = Append(log[f], e)]
           /\ Bump(f, e)
     /\ hdr' = [hdr EXCEPT ![f] = FALSE] /\ torn' = [torn EXCEPT ![f] = FALSE]
     /\ done' = [done EXCEPT ![f] = done[f] + 1]
@@ -206,7 +211,7 @@ ApplyRow(f) ==
     /\ infl.kind \in RowKinds
     /\ Contentless \/ mem[f] # goal[f]
     /\ mem' = [mem EXCEPT ![f] = goal[f]]
-    /\ sq' = IF sq[f] = "idle" THEN [sq EXCEPT ![f] = "queued"] ELSE sq
+    /\ sq' = IF sq[f] \in {"idle", "maybe"} THEN [sq EXCEPT ![f] = "queued"] ELSE sq
     /\ rowed' = rowed \cup {f}
     /\ UNCHANGED <<snap, log, torn, tmp, tmpc, opn, kvars, mtmp, infl, done, hdr, gvars, nw, pc, rec, reck>>
 
@@ -261,7 +266,7 @@ Ack ==
 InCritical(f) == Active /\ infl.phase = "data" /\ f \in infl.frags
                  /\ (hdr[f] \/ (~Contentless /\ infl.kind \in AppendKinds /\ done[f] > 0 /\ mem[f] # goal[f]))
 CreateSnapTmp(f) ==
-    /\ pc = "run" /\ sq[f] = "queued" /\ ~InCritical(f)
+    /\ pc = "run" /\ sq[f] \in {"queued", "maybe"} /\ ~InCritical(f)
     /\ tmp' = [tmp EXCEPT ![f] = "partial"] /\ tmpc' = [tmpc EXCEPT ![f] = mem[f]]
     /\ sq' = [sq EXCEPT ![f] = "created"]
     /\ UNCHANGED <<mem, snap, log, torn, opn, kvars, mtmp, wvars, gvars, nw, pc, rec, reck>>
@@ -345,7 +350,7 @@ LeftoversIgnored ==
 TypeOK ==
     /\ mem \in [Frags -> SUBSET Bits] /\ snap \in [Frags -> SUBSET Bits]
     /\ torn \in [Frags -> BOOLEAN] /\ tmp \in [Frags -> {"none", "partial", "full"}]
-    /\ opn \in [Frags -> 0..(MaxOpN + 1)] /\ sq \in [Frags -> {"idle", "queued", "created", "written"}]
+    /\ opn \in [Frags -> 0..(MaxOpN + 1)] /\ sq \in [Frags -> {"idle", "maybe", "queued", "created", "written"}]
     /\ kpart \in 0..KeyChunks /\ mtmp \in {"none", "created", "written"}
     /\ pc \in {"run", "crashed", "failed"} /\ nw \in 0..MaxWrites
 
